@@ -12,4 +12,5 @@ for tc in t.iter('testcase'):
 miss=[x for x in b['stable_pass'] if x not in ok]
 print('stable_pass',len(b['stable_pass']),'passing now',len(ok),'missing',len(miss))
 for m in miss[:20]: print('  MISSING',m)
+import sys; sys.exit(1 if miss else 0)
 PY
